@@ -120,6 +120,17 @@ def standalone(pipeline, pattern, frames, peaks, zs, us):
     return out
 
 
+def make_frames(q, rng):
+    shape = tuple(q["shape"])
+    frames = np.stack([np.zeros(shape, np.float32) if fk == "zero" else impl.noise_frame(rng, shape, fk)
+                       for fk in q["frame_kinds"]])
+    if q.get("dtype"):
+        frames = np.round(frames).clip(0, 60000).astype(q["dtype"])
+        if q.get("level"):       # integer counts on a large constant level (summed / offset detector data)
+            frames = frames + np.asarray(q["level"], dtype=q["dtype"])
+    return frames
+
+
 def run_case(kind, q):
     rng = np.random.default_rng(q["seed"])
     msgs = []
@@ -127,12 +138,7 @@ def run_case(kind, q):
         warnings.simplefilter("ignore")
         pattern = impl.pattern_from(q["pattern"])
         shape = tuple(q["shape"])
-        frames = np.stack([np.zeros(shape, np.float32) if fk == "zero" else impl.noise_frame(rng, shape, fk)
-                           for fk in q["frame_kinds"]])
-        if q.get("dtype"):
-            frames = np.round(frames).clip(0, 60000).astype(q["dtype"])
-            if q.get("level"):       # integer counts on a large constant level (summed / offset detector data)
-                frames = frames + np.asarray(q["level"], dtype=q["dtype"])
+        frames = make_frames(q, rng)
         peaks = np.asarray(q["peaks"], dtype=np.float64)
         if kind == "frame_udfs":
             zs = q["zero_shift"]
@@ -212,7 +218,7 @@ def classify(kind, q, msgs):
         return None
     orig = ltbc.log_scale
     rng = np.random.default_rng(q["seed"])
-    frames = np.stack([impl.noise_frame(rng, tuple(q["shape"]), fk) for fk in q["frame_kinds"]])
+    frames = make_frames(q, rng)       # the frames of the case, exactly as run_case builds them
     m0 = float(frames.min())
 
     def fixed_min(data, out):
@@ -261,7 +267,10 @@ def search(ctx, boost=1, focus=()):
         q = gen(rng, k)
         q["peaks"] = np.round(np.clip(np.asarray(q["peaks"]), 2, np.array(q["shape"]) - 3)).tolist()
         q.update({"steps": int(rng.integers(1, 3)), "tiling": tilings_of(rng, *q["shape"]), "depth": int(rng.integers(1, 4)),
-                  "dtype": None})
+                  "dtype": None, "level": 0,
+                  # no all-zero frames here: their correlation map is constant, every position is a maximiser and the reported
+                  # centre depends on the order of summation (an exact tie, nothing the statement decides)
+                  "frame_kinds": ["poisson" if fk == "zero" else fk for fk in q["frame_kinds"]]})
         msgs = run_case("sparse", q)
         ctx.oracle_case("sparse", q, msgs, key=classify("sparse", q, msgs) if msgs else None,
                         nontrivial=len(q["tiling"]) > 1 or q["depth"] > 1)
